@@ -418,9 +418,36 @@ def exmap_of(m, net):
     return [exs.get(r["id"]) for r in net["rxns"]]
 
 
+def gen_alt_net(rng):
+    """Growth from ONE compound alone or from a PAIR (or triple) jointly: the smallest medium has one component, larger
+    ones stay feasible once the small ones are excluded (alternatives requested beyond the number of smallest media)."""
+    n_single = rng.randrange(1, 3)
+    n_joint = rng.randrange(2, 4)
+    ext = ["M%d_e" % i for i in range(n_single + n_joint)]
+    rxns = []
+
+    def add(rid, st, lb, ub, obj="0"):
+        rxns.append({"id": rid, "st": {k: str(F(v)) for k, v in st.items()}, "lb": lb, "ub": ub, "obj": obj, "gpr": ""})
+    for i, m in enumerate(ext):
+        cap = rng.choice(["10", "1000"])
+        if rng.random() < 0.6:
+            add("EX_%d" % i, {m: -1}, "-" + cap, "1000")
+        else:
+            add("EX_%d" % i, {m: 1}, "-1000", cap)
+    for i in range(n_single):
+        add("T%d" % i, {ext[i]: -1, "N0_c": 1}, "0", "1000")
+    add("J0", dict([(m, -1) for m in ext[n_single:]] + [("N0_c", 1)]), "0", "1000")
+    add("BIO", {"N0_c": -1}, "0", "1000", obj="1")
+    return {"mets": ext + ["N0_c"], "rxns": rxns, "dir": "max", "genes": []}
+
+
 def gen_mm_cases(rng, tier):
     n_nets = 80 if tier == "quick" else 700
     cases = []
+    for k in range(6 if tier == "quick" else 40):
+        net = gen_alt_net(rng)
+        cases.append({"kind": "mm", "net": net, "t": rng.choice(["1", "5", "1/2"]), "open": rng.choice([False, True]),
+                      "exports": rng.random() < 0.3, "components": rng.choice([2, 3, 4, 6])})
     for _ in range(n_nets):
         net = gen_medium_net(rng, growth=True)
         m = to_cobra(net)
